@@ -17,6 +17,7 @@ import (
 type ctx struct {
 	st       *State
 	old      *State         // pre-state for old(...)
+	loopOld  *State         // state at loop entry for entry(...)
 	env      map[string]Val // spec-level names: callee params, results, hook arguments
 	bound    map[string]Val // quantified variables
 	spec     bool           // contract expression (names resolved by scope lookup)
@@ -1047,6 +1048,11 @@ func (e *Eng) indexVal(base, idx Val, c *ctx, n ast.Node, commaOk bool) Val {
 		}
 		i := e.idxTerm(idx, c)
 		e.safety("index", n, c, e.inBounds(i, base.Len))
+		if base.Row != "" {
+			v := Val{K: e.kindOf(et), T: "(select " + base.Row + " " + e.add(base.Off, i) + ")", GoT: et}
+			e.typeFacts(c.st, v)
+			return v
+		}
 		return e.loadLoc(c.st, e.elemBase(et), []string{base.Ref, e.add(base.Off, i)}, et)
 	}
 	if base.GoT != nil {
